@@ -81,6 +81,9 @@ CORPUS = {
     "rej.registers2": [" PSHS E,F"],
     "rej.registers3": [" PULU W,V,Q", " NOP"],
     "rej.two.undefined": [" LDX #NOWHERE+ELSEWHERE", " JMP THIRD"],
+    # addresses below $0100 (their natural width is two hex digits, the listing prints four)
+    "low.org": [" NAM LOW", " ORG $0080", "START LDA #1", "LOOP DECA", " BNE LOOP", " STA VAR", " JMP DONE", "VAR FCB 0", "DONE RTS", " END START"],
+    "no.org.labels": ["START LDX #TAB", " LDA ,X", " JMP DONE", "TAB FCB 1,2", "DONE RTS"],
 }
 INCLUDED = {"shared.asm": ["GETVAL LDA VALUE", " LDB VALUE+1", " LEAX VALUE,PCR", " RTS"], "other.asm": [" LDA TABLE,X", " LDA 5,X", "OTHER RTS"],
             "outer2.asm": [" NOP", " INCLUDE bad.asm"], "bad.asm": ["GOOD NOP", " FOO 1"], "loop1.asm": [" INCLUDE loop2.asm"],
@@ -228,9 +231,53 @@ def cases(tier, seed):
         for q2 in names:
             # one case = all P after the history (Q1,Q2): |corpus| assemblies of P, each preceded by Q1,Q2
             yield {"k": "history", "q1": q1, "q2": q2}
+    # the order in which the outputs of ONE assembly are asked for: every view is what it is when asked for first / alone
+    for name in NAMES:
+        if not name.startswith("rej.") and not name.startswith("inc."):
+            yield {"k": "views", "p": name}
+    for name in CLI_PROGRAMS:
+        yield {"k": "cliviews", "p": name}
     if tier == "thorough":
         for q1, q2, q3 in itertools.product(["readme", "pcr.force16", "rej.parse", "rej.div0", "indexed", "rej.include"], repeat=3):
             yield {"k": "history", "q1": q1, "q2": q2, "q3": q3}
+
+
+CLI_PROGRAMS = ["low.org", "no.org.labels", "readme", "org.name", "two.orgs", "org.sym"]
+VIEWS = ("image", "listing", "symbols", "tape", "origin")
+
+
+def take_view(program, view):
+    if view == "image":
+        return bytes(program.get_binary_array()).hex()
+    if view == "listing":
+        return [str(x) for x in program.get_statements()]
+    if view == "symbols":
+        return [str(x) for x in program.get_symbol_table()]
+    if view == "origin":
+        return [program.origin.is_none(), None if program.origin.is_none() else program.origin.int, program.name]
+    from cocoasm.virtualfiles.cassette import CassetteFile
+    from cocoasm.virtualfiles.coco_file import CoCoFile
+    from cocoasm.values import NumericValue
+    cas = CassetteFile()
+    cas.add_file(CoCoFile(name=program.name or "PROG", load_addr=program.origin, exec_addr=program.origin, data=program.get_binary_array(),
+                          extension="bin", type=NumericValue(0x02), data_type=NumericValue(0x00)))
+    return bytes(cas.get_buffer()).hex()
+
+
+def cli_sections(out):
+    """stdout of assembler.py -> (symbol table lines, listing lines)"""
+    sym, lst, cur = [], [], None
+    for ln in out.split("\n"):
+        if ln.startswith("-- Symbol Table --"):
+            cur = sym
+        elif ln.startswith("-- Assembled Statements --"):
+            cur = lst
+        elif cur is not None:
+            cur.append(ln)
+    for sec in (sym, lst):
+        while sec and sec[-1] == "":      # the final line end of the output
+            sec.pop()
+    return sym, lst
 
 
 def check_case(case):
@@ -283,6 +330,74 @@ def check_case(case):
                 if given != before:
                     bad("invariant|" + case["p"], "the list given to process() was modified ({})".format(variant), before[-2:], given[-2:])
         res["state"] = "G:{}".format(hashlib.md5(g1.encode()).hexdigest()[:12])
+    elif case["k"] == "views":
+        from cocoasm.program import Program
+        given = [ln + "\n" for ln in CORPUS[case["p"]]]
+        alone = {}
+        n = 0
+        for order in [(v,) for v in VIEWS] + list(itertools.permutations(VIEWS)):
+            program = Program()
+            with common.watchdog(30):
+                program.process(list(given))
+            for i, v in enumerate(order):
+                got = take_view(program, v)
+                n += 1
+                if len(order) == 1:
+                    alone[v] = got
+                elif got != alone[v]:
+                    d = next(((a, b) for a, b in zip(alone[v], got) if a != b), (len(alone[v]), len(got))) if isinstance(got, list) else (alone[v][-60:], got[-60:])
+                    bad("views|{}|{}".format(case["p"], v), "the {} depends on which outputs were produced before it".format(v),
+                        "{} (asked for alone)".format(d[0]), "{} (after {})".format(d[1], "+".join(order[:i])))
+                    break
+            if viol:
+                break
+        res["transitions"] = n
+        res["state"] = "V:{}:{}".format(case["p"], zlib.crc32(json.dumps(alone, sort_keys=True).encode()))
+    elif case["k"] == "cliviews":
+        import shutil
+        from .. import cli
+        td = common.mkdtemp(prefix="c17_")
+        cwd = os.getcwd()
+        n = 0
+        try:
+            os.chdir(td)
+            open("p.asm", "w").write("".join(ln + "\n" for ln in CORPUS[case["p"]]))
+            flags = ("symbols", "print", "bin", "cas", "dsk")
+            alone = {}
+            for r in (1, 2, 3, 4, 5):
+                for sub in itertools.combinations(flags, r):
+                    for o in ("bin", "cas", "dsk"):
+                        if os.path.exists("o." + o):
+                            os.remove("o." + o)
+                    status, out = cli.assembler("p.asm", name="PROG", symbols="symbols" in sub, print_="print" in sub,
+                                                **{"to_" + o: "o." + o for o in sub if o in ("bin", "cas", "dsk")})
+                    n += 1
+                    sym, lst = cli_sections(out)
+                    got = {"status": status}
+                    if "symbols" in sub:
+                        got["symbols"] = sym
+                    if "print" in sub:
+                        got["print"] = lst
+                    for o in ("bin", "cas", "dsk"):
+                        if o in sub:
+                            got[o] = zlib.crc32(open("o." + o, "rb").read()) if os.path.exists("o." + o) else None
+                    if r == 1:
+                        alone[sub[0]] = got[sub[0]]
+                        alone["status"] = alone.get("status", status)
+                    for k, v in got.items():
+                        if not viol and v != alone[k]:
+                            d = next(((a, b) for a, b in zip(alone[k], v) if a != b), (len(alone[k]), len(v))) if isinstance(v, list) else (alone[k], v)
+                            bad("cliviews|{}|{}".format(case["p"], k), "assembler.py: the --{} output depends on the other outputs asked for".format(k if k in ("symbols", "print") else "to_" + k),
+                                "{} (asked for alone)".format(str(d[0])[:120]), "{} (with {})".format(str(d[1])[:120], "+".join(sub)))
+                    if viol:
+                        break
+                if viol:
+                    break
+        finally:
+            os.chdir(cwd)
+            shutil.rmtree(td, ignore_errors=True)
+        res["transitions"] = n
+        res["state"] = "CV:{}:{}".format(case["p"], zlib.crc32(json.dumps(alone, sort_keys=True, default=str).encode()))
     else:
         hist = [case["q1"], case["q2"]] + ([case["q3"]] if "q3" in case else [])
         n = 0
@@ -319,6 +434,6 @@ def describe(tier):
         "oracle": "(1) fingerprint of module-level state (globals, class attributes, function defaults/closures/caches of cocoasm.*, assembler, "
                   "file_util) equal before and after each assembly; (2) output of P after any history = output of P as first assembly of a fresh "
                   "process, equal across hash seeds; (3) input line list unchanged",
-        "rule": "state = fingerprint hash / history; the invariant cases close the BFS at a single state when the property holds",
+        "rule": "views: for every accepted corpus program all 120 orders of asking one Program for its image, listing, symbol table, tape file and origin, and for 6 programs all 31 non-empty subsets of assembler.py's --symbols/--print/--to_bin/--to_cas/--to_dsk: each output equals the one produced alone; state = fingerprint hash / history; the invariant cases close the BFS at a single state when the property holds",
         "assumptions": ["workers are warm processes that have already assembled other cases (additional, uncontrolled history)"],
     }
